@@ -176,7 +176,7 @@ class EChaos(Engine):
     def _iter_spec(self, g, n):
         form = g.pick(['list', 'tuple', 'range', 'faulty', 'gen', 'set_like', 'empty', 'int'])
         items = [g.pick([-n - 1, -n, -1, 0, 1, n - 1, n, n + 1, g.int(0, max(n - 1, 0))]) for _ in range(g.int(0, 5))]
-        return {'t': 'iter', 'form': form, 'items': items, 'fail_at': g.int(0, 5), 'range': [g.pick([0, -1, 2, n]), g.pick([0, n, n + 2, -1, 3]), g.pick([1, 2, -1, 3])]}
+        return {'t': 'iter', 'form': form, 'items': items, 'fail_at': g.int(0, 5), 'range': [g.pick([0, -1, 2, n]), g.pick([0, n, n + 2, -1, 3, 2 ** 63, 10 ** 30]), g.pick([1, 2, -1, 3])]}
 
     def _spec_for(self, g, ann, pname, n, member, cname=''):
         a = str(ann)
